@@ -33,7 +33,8 @@ func (e *Environment) AddAttributes(attributes map[string]*types.Item) error {
 			return err
 		}
 
-		e.Set(name, obj)
+		// attribute names and placeholders are stored as they are: aliases apply to the names used in expressions only
+		e.store[name] = obj
 	}
 
 	return nil
